@@ -155,6 +155,17 @@ pub fn audit_tree(tree: &AnyTree) -> Audit {
     audit_dump(&lsm_tree::verif::dump_current(tree))
 }
 
+/// Audit of the currently published version while concurrent maintenance may be running: the
+/// structural checks (incl. file existence) are evaluated while the table handles of that
+/// version are still held, so a legitimately superseded version cannot lose its files under us.
+pub fn audit_tree_checked(tree: &AnyTree) -> (Audit, Vec<String>) {
+    let dump = lsm_tree::verif::dump_current(tree);
+    let a = audit_dump(&dump);
+    let probs = a.check_structure();
+    drop(dump);
+    (a, probs)
+}
+
 fn kk(k: &[u8]) -> String {
     crate::spec::Bytes(k.to_vec()).short()
 }
